@@ -48,9 +48,9 @@ class DeLevieFiniteLength(Element):
         n: float,
         d: float,
     ) -> ComplexImpedances:
-        alpha: float64 = sqrt(R_r * R_i)
+        alpha: float64 = sqrt(R_i * R_r)
         beta: ComplexImpedances = sqrt(1 + Y * (1j * 2 * pi * f) ** n)
-        return (alpha * (coth(d * alpha * beta)) / beta)
+        return (alpha * (coth(d * sqrt(R_i / R_r) * beta)) / beta)
 
 
 register_element(
